@@ -35,7 +35,11 @@ CLASSES = (['allow', 'deny', 'unknown', 'emptyset', 'scope',
             # asked for (and unknown) BEFORE the service registered it
             'late-allow', 'late-deny',
             # a system-scoped caller on a system-only policy (right scope)
-            'sysscope-allow', 'eo-sysscope-allow', 'sysscope-deny'] +
+            'sysscope-allow', 'eo-sysscope-allow', 'sysscope-deny',
+            # an unknown name decided by a REGISTERED default rule that is
+            # itself scoped to system callers: the requested name is what is
+            # enforced (and named in the exception), nothing gates it
+            'unknowndflt-allow', 'unknowndflt-deny'] +
            ['ret-' + k for k in RET] +
            # a check OBJECT needs no named rules: empty rule store
            ['eo-allow', 'eo-deny', 'eo-scope', 'eo-ret-str'] +
@@ -86,7 +90,8 @@ def expected_class(cls):
     if cls.startswith('eo-'):
         cls = cls[3:]
     if cls in ('allow', 'pw-allow', 'softscope', 'fileonly-allow',
-               'late-allow', 'sysscope-allow') or cls in (
+               'late-allow', 'sysscope-allow',
+               'unknowndflt-allow') or cls in (
             'ret-true', 'ret-one', 'ret-str', 'ret-tuple'):
         return 'allow'
     if cls in ('scope', 'scope-deny'):
@@ -157,6 +162,10 @@ def build(P, parse_rule, cls):
                               scope_types=['system'])]
     for k in RET:
         defaults.append(P.RuleDefault('svc:ret-' + k, 'vret:' + k))
+    if cls.startswith('unknowndflt'):
+        defaults.append(P.RuleDefault(
+            'default', '@' if cls.endswith('allow') else 'role:nope',
+            scope_types=['system']))
     if cls != 'emptyset' and not cls.startswith('eo-'):
         enf.register_defaults(defaults)
     enf.load_rules()
@@ -180,12 +189,12 @@ def rule_for(P, parse_rule, cls, how):
             return None
         cls = cls[3:]
     if how == 'name':
-        if cls == 'unknown':
+        if cls == 'unknown' or cls.startswith('unknowndflt'):
             return 'svc:unknown'
         if cls == 'emptyset':
             return 'svc:allow'          # no rules at all in that enforcer
         return 'svc:' + cls
-    if cls in ('unknown', 'emptyset'):
+    if cls in ('unknown', 'emptyset') or cls.startswith('unknowndflt'):
         return None
     text = {'allow': 'role:r', 'deny': 'role:nope', 'scope': '@',
             'scope-deny': 'role:nope', 'softscope': '@',
@@ -243,7 +252,8 @@ def run(job, seed):
             if rule is None:
                 continue
             registered = how == 'name' and cls not in (
-                'unknown', 'emptyset', 'fileonly-allow', 'fileonly-deny')
+                'unknown', 'emptyset', 'fileonly-allow', 'fileonly-deny',
+                'unknowndflt-allow', 'unknowndflt-deny')
             for rep, tk, exc, args, kwargs in itertools.product(
                     ('dict', 'context', 'values'),
                     ('plain', 'nested', 'lock'), (None, MyExc),
